@@ -55,7 +55,13 @@ def run(ctx: Ctx):
                     betas[kb], loge[kb] = eb, ee
                     kb += 1
             ctx.count("taus_boundary", kb)
+            betas_before, loge_before = betas.copy(), loge.copy()
             tb, tl, te, se, pe = tau(betas, loge)
+            if not (np.array_equal(betas, betas_before) and np.array_equal(loge, loge_before)):
+                kbad = int(np.nonzero(betas != betas_before)[0][0]) if not np.array_equal(betas, betas_before) else -1
+                ctx.violation("Taus.__call__", "mutates-input", "the tau stage modified the emergence-angle / energy array it was given (later stages then use the altered angles)",
+                              {"version": ver, "index": kbad, "beta_before": float(betas_before[kbad]), "beta_after": float(betas[kbad])})
+                betas, loge = betas_before.copy(), loge_before.copy()
             lines = [f"kin {f2h(e)} {f2h(frac)}" for e in te]
             out = run_driver(lines)
             for i, o in enumerate(out):
